@@ -55,6 +55,7 @@ type Ctx struct {
 	Tier   string
 	Replay *Violation // non-nil when replaying
 	Worker, Workers int
+	Deadline time.Time // wall-clock end of this worker's budget: long evaluations stop early (never used for verdicts)
 	Stop   bool // set by an engine whose enumeration is exhausted
 	trace  uint64
 	traceLog []string
@@ -160,6 +161,7 @@ func TestWorker(t *testing.T) {
 	res := &Result{Engine: name, Seed: seed, From: from, To: to, Counters: map[string]int{}, Max: map[string]int{}}
 	ctx := &Ctx{Res: res, nt: map[string]bool{}, Tier: os.Getenv("VERIF_TIER"), Worker: envInt("VERIF_WORKER", 0), Workers: envInt("VERIF_WORKERS", 1)}
 	start := time.Now()
+	ctx.Deadline = start.Add(budget)
 	write := func() {
 		res.WallS = time.Since(start).Seconds()
 		res.Nontrivial = res.Nontrivial[:0]
